@@ -42,3 +42,24 @@ fn vf_lock_acquire() {
     }
     println!("VF-SUMMARY test=lock_acquire checked={} nontrivial={} bad={}", checked, checked, bad);
 }
+
+#[test]
+fn vf_lock_address_defaults() {
+    // C14: all mutating invocations of one configuration must contend for the SAME address: a `lock` object that leaves fields out gets
+    // the fixed defaults - in particular never port 0, which would give every invocation a port of its own
+    let (mut checked, mut bad) = (0u64, 0u64);
+    let d = LockServerConfig::default();
+    for text in ["{}", "{\"bind_timeout_ms\":500}", "{\"host\":\"127.0.0.1\"}", "{\"host\":\"127.0.0.1\",\"bind_timeout_ms\":250}"] {
+        checked += 1;
+        match serde_json::from_str::<LockServerConfig>(text) {
+            Ok(c) => { if c.port != d.port || c.port == 0 || (!text.contains("host") && c.host != d.host) {
+                bad += 1; println!("VF-FAIL lock configuration `{}` :: resolves to {}:{}, the documented default address is {}:{} (two invocations would not share one lock address) (C14)", text, c.host, c.port, d.host, d.port); } }
+            Err(e) => { bad += 1; println!("VF-FAIL lock configuration `{}` :: rejected: {} (C14)", text, e); }
+        }
+    }
+    // the whole configuration, as a user customising only the log port has to write it
+    checked += 1;
+    let cfg: Result<crate::core::Config, _> = serde_json::from_str("{\"targets\":[],\"server\":{\"log\":{\"port\":6000},\"lock\":{}}}");
+    match cfg { Ok(c) => if c.server.lock.port != d.port { bad += 1; println!("VF-FAIL configuration with `\"lock\": {{}}` :: lock port {} instead of the default {} (C14)", c.server.lock.port, d.port); }, Err(e) => { bad += 1; println!("VF-FAIL configuration with `\"lock\": {{}}` :: rejected: {} (C14)", e); } }
+    println!("VF-SUMMARY test=lock_address_defaults checked={} nontrivial={} bad={}", checked, checked, bad);
+}
